@@ -528,13 +528,24 @@ vf::Result check_frame(const Frm& f) {
     }
     c.st = st;
     c.cycles = 2;
+    // with at most one active frame: overwrite the visible loop counter between the save and the restore -- the restore must bring
+    // the saved frame back, not rely on the registers still holding it
+    bool clobber = depth <= 1 && s.bits(1);
+    if (clobber) {
+        uint16_t rst = c.expansion;
+        c.expansion = W("mov(Imm16,Register)", {-1, kRegLc});
+        c.more_code = {icase::gen_u16(s), rst};
+        c.cycles = 3;
+    }
     icase::IResult r = sut().exec(c);
     if (r.outcome != 0) {
         vf::note(0, false);
         return vf::Result::pass();
     }
     State want = st;
-    want[flat::F_pc] = st[flat::F_pc] + 2;
+    want[flat::F_pc] = st[flat::F_pc] + (clobber ? 4 : 2);
+    if (clobber)
+        vf::klass("frame round trip with the counter overwritten in between");
     if (!(r.after == want))
         return vf::Result::fail("C09:frame:" + std::string(via_sp ? "sp" : "arrn") + ":" + flat::diff(r.after, want).substr(0, flat::diff(r.after, want).find(':')),
                                 "bkrepsto ; bkreprst with " + std::to_string(depth) + " active frame(s) is not the identity (got vs expected) " +
